@@ -10,9 +10,11 @@ from .common import LEAN, SRC, add_failure, bump, new_outcome
 
 PROP = "C06"
 PROPS_FILES = ["CogentModel/Props/C06.lean", "CogentModel/Props/C06Clustal.lean", "CogentModel/Props/C06Gen.lean",
-               "CogentModel/Props/C06Decor.lean", "CogentModel/Props/C06GenLoop.lean"]
+               "CogentModel/Props/C06Decor.lean", "CogentModel/Props/C06GenLoop.lean",
+               "CogentModel/Props/C06Interleaved.lean", "CogentModel/Props/C06GenSuffix.lean"]
 LEAN_TARGETS = ["CogentModel.Props.C06", "CogentModel.Props.C06Clustal", "CogentModel.Props.C06Gen", "CogentModel.Props.C06Decor",
-                "CogentModel.Props.C06GenLoop"]
+                "CogentModel.Props.C06GenLoop", "CogentModel.Props.C06Interleaved",
+                "CogentModel.Props.C06GenSuffix"]
 DRIVER = "drv_c06"
 TRUSTED = [
     "hand-written models lean/CogentModel/Model/Splitlines.lean (str.splitlines, util/io.iter_splitlines loop) and "
@@ -25,7 +27,11 @@ TRUSTED = [
     "the chunks infile.read(chunk_size) returns are recorded from the real file object (a recording proxy around open_)",
     "translator/c06_str2lean.py (ast only; closed fragment, anything else is a reported translation problem) and the str primitives "
     "of Model/PyStr.lean it emits; conventions T1 (and/or -> truth value), T2 (s[0], l[-1] of an empty operand -> ''), T3 (int(tok) "
-    "succeeds iff pyIntOk tok) -- pyIntOk, is_clustal_seq_line, delete_trailing_number, last_space are also tied behaviourally",
+    "succeeds iff pyIntOk tok) -- pyIntOk, is_clustal_seq_line, delete_trailing_number, last_space are also tied behaviourally; T4 "
+    "(`a, b = list(map(int, l))` uses the model's pyInt), T5 (get_format_suffixes is translated as a function of Path.suffix / Path.suffixes)",
+    "translator/c06_loop2lean.py (ast only; generator loops `for line in data` with yield/raise/continue -> structural recursion returning "
+    "the yielded list or the first error; conventions L1 label_to_name = identity, L2 `s[0] in t` of an empty s is false; the three header "
+    "statements of PamlParser before its loop are NOT translated (listed verbatim in the translator; any other text is a translation problem))",
 ]
 ASSUMPTIONS = [
     "JSON, gzip/bz2/zip, chardet and open_ are exercised by the real-code round trip, not modelled",
@@ -53,7 +59,7 @@ def generate(ctx):
     problems = list(problems or [])
     p2, changed2 = c06_str2lean.generate(SRC, GEN_STR_PATH)
     if changed2:
-        ctx.notes.append("Gen/C06Str.lean was rewritten (is_clustal_seq_line / delete_trailing_number / is_blank / _split_line changed or first run)")
+        ctx.notes.append("Gen/C06Str.lean was rewritten (is_clustal_seq_line / delete_trailing_number / is_blank / _split_line / _get_header_info / get_format_suffixes changed or first run)")
     p3, changed3 = c06_loop2lean.generate(SRC, GEN_LOOP_PATH)
     if changed3:
         ctx.notes.append("Gen/C06Loop.lean was rewritten (_faster_parser / _strict_parser / PamlParser loop changed or first run)")
@@ -572,7 +578,11 @@ def gen_clustal_general(rng):
             lines.append(indent + "".join(rng.choice("*:. ") for _ in range(min(w, L - i))))
         lines += [""] * rng.randint(0 if i + w >= L else 1, 2)
     text = eol.join(lines) + rng.choice([eol, eol, ""])
+    _last_clustal_general.update(pairs=[[n, sq[i : i + w]] for i in range(0, L, w) for n, sq in zip(names, seqs)])
     return text, [[n, s] for n, s in zip(names, seqs)], mt
+
+
+_last_clustal_general = {}
 
 
 def clustal_variants(scratch, text, mt="dna", tag="cv"):
@@ -1108,6 +1118,18 @@ def correspondence(ctx):
         creq.append(("clustal_spec", {"s": t}))
         creal.append(dict(clustalName=_py_clustal_name(t), clustalSeq=_py_clustal_seq(t)))
         cmeta.append(("Spec/ClustalRecords predicate", dict(s=t)))
+    # the generator of decorated (not writer shaped) Clustal files stays inside the domain of the theorems of Props/C06Decor.lean:
+    # the Lean recogniser checkDecorated (proved sound) accepts every generated file and rejects it with one pair removed
+    for _ in range(ctx.budget(60, 600)):
+        t, _w, _m = gen_clustal_general(rng)
+        pairs = [list(p) for p in _last_clustal_general["pairs"]]
+        ls = t.splitlines()
+        creq.append(("decor_check", {"pairs": pairs, "lines": ls}))
+        creal.append(True)
+        cmeta.append(("Spec/ClustalDecorated shape of a generated file", dict(pairs=pairs, lines=ls)))
+        creq.append(("decor_check", {"pairs": pairs[:-1], "lines": ls}))
+        creal.append(False)
+        cmeta.append(("Spec/ClustalDecorated shape with a pair removed", dict(pairs=pairs[:-1], lines=ls)))
     for (what, arg), real, m in zip(cmeta, creal, drv.batch(creq)):
         _cmp(out, what + ": model differs", arg, m, real, ("cl", what, str(arg)) if real else None)
         bump(out, "clustal", what)
